@@ -429,7 +429,7 @@ class Check(core.PropertyCheck):
 
     def model_runs(self, ctx):
         # the dumped graph holds every history of two calls; longer histories come from tlc -simulate (scenarios())
-        small = ctx.model_check(self.MODEL, dict(self.model_constants("quick"), MaxOps=2), dump=True)
+        small = ctx.model_check(self.MODEL, dict(self.model_constants("quick"), MaxOps=2), dump=True, timeout=1200)
         if ctx.quick:
             return [small]
         big = ctx.model_check(self.MODEL, self.model_constants("thorough"), dump=False, tag="_big")
@@ -475,7 +475,7 @@ class Check(core.PropertyCheck):
         g = m.graph
         behs = [(b, m.constants, "model") for b in g.edge_cover(ctx.rng, max_len=10, tail=3)]
         simc = dict(self.model_constants(ctx.tier), MaxOps=6 if ctx.quick else 9)
-        sims, _ = ctx.simulate(self.MODEL, simc, num=300 if ctx.quick else 5000, depth=8 if ctx.quick else 11)
+        sims, _ = ctx.simulate(self.MODEL, simc, num=300 if ctx.quick else 5000, depth=8 if ctx.quick else 11, timeout=1200)
         behs += [(b, simc, "simulate") for b in sims]
         for i, (b, consts, src) in enumerate(behs):
             ops = self._ops(b)
